@@ -3,6 +3,7 @@
 From BT Require Import Base.Util.
 From BT Require Model.FileView Model.Chunker Model.Indexer Properties.C18.
 From BT Require Model.BBIFile Model.BigWigWrite Model.Accept Proofs.SliceStreamsAccept.
+From BT Require Base.Float Model.BedStats Proofs.BedStatsRows.
 
 Module PinC18.
 Import Model.FileView Model.Chunker Model.Indexer Properties.C18.
@@ -115,6 +116,17 @@ Check (C18_chunks_cut_at_lines : forall (file : list N) (n : N) (cs : list (N * 
   let pieces := map (fun ab => range file (fst ab) (snd ab)) cs in
   concat pieces = file /\
   Forall (fun c => c = [] \/ exists c', c = c' ++ [NL]) (removelast pieces)).
+Check (C18_chunks_feed_C17 : forall (fp : Float.fpmode)
+    (q : BBIFile.name -> N -> N -> res (list BigWigWrite.value)) (m : BedStats.name_mode) (minmax : bool)
+    (file : list N) (n : N) (cs : list (N * N)) (sz : nat -> nat -> N) (fuel : nat),
+  split_file_into_chunks_by_size file n = Ok cs ->
+  Nlen file < 2 ^ 63 -> (forall i k, 1 <= sz i k) -> (length file < fuel)%nat ->
+  let pieces := map (fun ab => range file (fst ab) (snd ab)) cs in
+  concat pieces = file /\ BedStatsRows.cuts_at_lines pieces /\
+  chunk_streams fuel file sz cs = map (fun c => Ok (BedStats.split_lines c)) pieces /\
+  BedStats.avg_parallel fp q m minmax pieces = BedStats.avg_chunk fp q m minmax file /\
+  (forall out, BedStats.avg_serial fp q m minmax file = Ok out ->
+               BedStats.avg_parallel fp q m minmax pieces = Ok out)).
 (* the reference notions the new statements rest on *)
 Check (eq_refl : @lfile = fun key bytes => map (abs_line key) (split_lines bytes)).
 Check (eq_refl : @abs_line = fun key l => (key l, Nlen l)).
